@@ -28,6 +28,11 @@ CHECKS = {
    text="Event-loop callback facet only: exposed Go functions are invoked by the simulated event loop at seeded instants (between any two scheduler turns, while goroutines are parked in channel queues), performing channel operations directly, spawning goroutines or echoing arguments; the reference model extended with a callback actor decides every outcome: an enabled operation takes effect, one that would block yields the documented error and has no effect at all. Also: stable identity of an exposed function, deadlock report switched off by exposing a function and by nothing else. The type-directed conversion tables are pure functions of the value and are not decided.",
    note="Trusted: reference model, simulator environment contract. Uncaught goroutine panics are not generated in callback scenarios (who receives an exception escaping a goroutine that runs on a callback's JavaScript stack is environment behaviour). Conversion tables / UTF-16 transcoding / typed arrays: not decided by this check.",
    technique="deterministic simulation (seeded event loop injecting JavaScript->Go callbacks) with model-based outcome membership"),
+ "C13": dict(
+   category="exploration", design_ref="DESIGN.md §4 C13",
+   text="Concurrency facet: goroutines run operation lists on shared nosync.Mutex/RWMutex/WaitGroup/Once/Map/Pool objects and on sync/atomic variables (function forms and typed Int32/Int64/Uint32/Uint64/Uintptr/Bool/Pointer[T]/Value), with seeded suspensions between operations and inside Once.Do, Map.Range and Pool.New callbacks so that operations genuinely overlap; every history is stepped through sequential reference state machines written from the documented contracts of sync and sync/atomic: uncontended operations behave as in sync, contended ones (would block / fatal in sync) panic and leave the object unchanged, atomics are atomic (invoke and return adjacent) with Go's wrap-around, Value's misuse panics. Bit-exact math, math/bits and unicode are pure functions and are not decided.",
+   note="Trusted: the reference state machines, the simulator. sync.Pool's permission to drop items is granted to nosync.Pool too. The function forms on unsafe.Pointer are not exercised (unsafe.Pointer identity is unsupported by GopherJS).",
+   technique="deterministic simulation (seeded suspensions inside critical sections and callbacks) with sequential reference models over the recorded history"),
 }
 
 def main():
